@@ -195,7 +195,12 @@ func (r *Rollback) performRollback(currentRelease, targetRelease *release.Releas
 	if err != nil {
 		msg := fmt.Sprintf("Rollback %q failed: %s", targetRelease.Name, err)
 		slog.Warn(msg)
-		currentRelease.Info.Status = release.StatusSuperseded
+		// Only a deployed release is superseded. A release that never became
+		// deployed (e.g. the failed upgrade an --atomic rollback starts from)
+		// must not end up looking like a previously successful one.
+		if currentRelease.Info.Status == release.StatusDeployed {
+			currentRelease.Info.Status = release.StatusSuperseded
+		}
 		targetRelease.Info.Status = release.StatusFailed
 		targetRelease.Info.Description = msg
 		r.cfg.recordRelease(currentRelease)
